@@ -234,6 +234,11 @@ func (b *Builder) global(v *types.Var) *Term {
 					return &Term{Op: "list", Name: b.P.typeStr(v.Type()), Args: elts}
 				}
 				nonNilGlobals[name] = true
+				// a never-written table of rows with constant fields is rendered by value
+				// (a loop over it unrolls like the sequence of checks it replaces)
+				if t := b.constRowTable(pk, v, cl); t != nil {
+					return t
+				}
 			}
 			if call, ok := ast.Unparen(init).(*ast.CallExpr); ok {
 				if fn, ok := typeutil.Callee(pk.TypesInfo, call).(*types.Func); ok {
@@ -255,6 +260,56 @@ func (b *Builder) global(v *types.Var) *Term {
 		}
 	}
 	return &Term{Op: "global", Name: name}
+}
+
+// constRowTable: the value of a never-written package-level slice/array of
+// structs every field of which is a constant (at most 32 rows).
+func (b *Builder) constRowTable(pk *packages.Package, v *types.Var, cl *ast.CompositeLit) *Term {
+	var et types.Type
+	switch u := v.Type().Underlying().(type) {
+	case *types.Slice:
+		et = u.Elem()
+	case *types.Array:
+		et = u.Elem()
+	default:
+		return nil
+	}
+	st, ok := et.Underlying().(*types.Struct)
+	if !ok || len(cl.Elts) == 0 || len(cl.Elts) > 32 || !b.P.neverWritten(v) {
+		return nil
+	}
+	var rows []*Term
+	for _, e := range cl.Elts {
+		if kv, isKV := e.(*ast.KeyValueExpr); isKV {
+			_ = kv
+			return nil // indexed rows: not a plain table
+		}
+		rl, ok := ast.Unparen(e).(*ast.CompositeLit)
+		if !ok {
+			return nil
+		}
+		row := &Term{Op: "struct", Name: b.P.typeStr(et), Args: []*Term{tZero}}
+		for i, fe := range rl.Elts {
+			fname := ""
+			ve := fe
+			if fkv, isKV := fe.(*ast.KeyValueExpr); isKV {
+				id, ok := fkv.Key.(*ast.Ident)
+				if !ok {
+					return nil
+				}
+				fname, ve = id.Name, fkv.Value
+			} else if i < st.NumFields() {
+				fname = st.Field(i).Name()
+			}
+			tv, has := pk.TypesInfo.Types[ve]
+			if fname == "" || !has || tv.Value == nil {
+				return nil
+			}
+			row = structSet(row, row.Name, fname, constTerm(tv.Value))
+		}
+		rows = append(rows, row)
+	}
+	return &Term{Op: "list", Name: b.P.typeStr(v.Type()), Args: rows}
 }
 
 func findInit(files []*ast.File, info *types.Info, v *types.Var) ast.Expr {
